@@ -13,8 +13,10 @@
 EXTENDS Integers, FiniteSets, TLC
 
 CONSTANTS FixZ1, Procs,    \* e.g. {"syncdb", "disable", "snap", "enable"}
-          FixQ1            \* FALSE: the read transaction is bound to the context of the call that began it (finding Q1): it dies
+          FixQ1,           \* FALSE: the read transaction is bound to the context of the call that began it (finding Q1): it dies
                            \* when that call - a request with its own context - returns
+          FixR             \* FALSE: DB.Open / DB.init rewrite shared fields (compactor client and flags, page size) unconditionally
+                           \* (findings R2, R3); TRUE: a field is only written when its value changed (never, in these histories)
 
 VARIABLES
   pc,          \* per process program counter
@@ -24,13 +26,15 @@ VARIABLES
   streaming,   \* a snapshot stream goroutine holds chkMu.RLock
   done,        \* processes that finished
   hz,          \* history: shapes of known findings seen
-  rtxBy        \* the process whose context the read transaction was begun with ("boot" = the daemon's own context)
-vars == <<pc, execSem, chkR, chkW, opened, inited, rtx, streaming, done, hz, rtxBy>>
+  rtxBy,       \* the process whose context the read transaction was begun with ("boot" = the daemon's own context)
+  inComp,      \* the store's compaction / retention monitor is inside the compactor (reads compactor.client and its flags)
+  raced        \* ghost: a shared field was written while another goroutine was reading it (data race)
+vars == <<pc, execSem, chkR, chkW, opened, inited, rtx, streaming, done, hz, rtxBy, inComp, raced>>
 
 Init == /\ pc = [p \in Procs |-> "start"]
         /\ execSem = "free" /\ chkR = 0 /\ chkW = FALSE
         /\ opened = TRUE /\ inited = TRUE /\ rtx = TRUE       \* a running, initialised DB
-        /\ streaming = FALSE /\ done = {} /\ hz = {} /\ rtxBy = "boot"
+        /\ streaming = FALSE /\ done = {} /\ hz = {} /\ rtxBy = "boot" /\ inComp = FALSE /\ raced = FALSE
 
 Goto(p, l) == pc' = [pc EXCEPT ![p] = l]
 Finish(p) == pc' = [pc EXCEPT ![p] = "end"] /\ done' = done \cup {p}
@@ -48,6 +52,8 @@ SyncInit(p) == /\ pc[p] = "s_init"
                     THEN Goto(p, "s_unlock") /\ UNCHANGED <<inited, rtx>>     \* refuse to re-initialise a closed DB
                     ELSE inited' = TRUE /\ rtx' = TRUE /\ Goto(p, "s_copy")
                /\ rtxBy' = IF (FixZ1 /\ ~opened) \/ rtx THEN rtxBy ELSE p       \* acquireReadLock is a no-op while a transaction is held
+               \* a (re-)initialisation scans the page size into db.pageSize, which a streaming snapshot reads (writeLTXFromDB)
+               /\ raced' = (raced \/ (~FixR /\ ~inited /\ ~(FixZ1 /\ ~opened) /\ streaming))
                /\ UNCHANGED <<execSem, chkR, chkW, opened, streaming, done>>
 SyncCopyBegin(p) == /\ pc[p] = "s_copy" /\ ~chkW
                     /\ chkR' = chkR + 1 /\ Goto(p, "s_copy2")
@@ -91,7 +97,9 @@ CloseUnlock(p) == /\ pc[p] = "c_unlock" /\ execSem' = "free" /\ Finish(p)
 EnableCheck(p) == /\ pc[p] = "start" /\ p = "enable"
                   /\ IF ~opened THEN Goto(p, "e_open") /\ UNCHANGED done ELSE Finish(p)
                   /\ UNCHANGED <<execSem, chkR, chkW, opened, inited, rtx, streaming>>
+\* DB.Open sets the compactor's client and flags (db.go Open): a write next to a monitor that is inside the compactor is a data race
 EnableOpen(p) == /\ pc[p] = "e_open" /\ opened' = TRUE /\ Finish(p)
+                 /\ raced' = (raced \/ (~FixR /\ inComp))
                  /\ UNCHANGED <<execSem, chkR, chkW, inited, rtx, streaming>>
 
 \* ---------------- DB.Snapshot : position + RLock under execSem, stream after releasing it
@@ -105,13 +113,23 @@ SnapDone(p) == /\ pc[p] = "n_stream"
                /\ chkR' = chkR - 1 /\ streaming' = FALSE /\ Finish(p)
                /\ UNCHANGED <<execSem, chkW, opened, inited, rtx>>
 
-Step0(p) == \/ SyncCheck(p) \/ SyncLock(p) \/ SyncInit(p) \/ SyncCopyBegin(p) \/ SyncCopyEnd(p)
+\* ---------------- Store.monitorCompactionLevel : skip a DB that is not open, else work inside the compactor (no DB lock held)
+CompCheck(p) == /\ pc[p] = "start" /\ p = "compact"
+                /\ IF opened THEN Goto(p, "k_in") /\ inComp' = TRUE /\ UNCHANGED done ELSE Finish(p) /\ UNCHANGED inComp
+                /\ UNCHANGED <<execSem, chkR, chkW, opened, inited, rtx, streaming>>
+CompDone(p) == /\ pc[p] = "k_in" /\ inComp' = FALSE /\ Finish(p)
+               /\ UNCHANGED <<execSem, chkR, chkW, opened, inited, rtx, streaming>>
+
+Step0(p) == \/ CompCheck(p) \/ CompDone(p)
+           \/ SyncCheck(p) \/ SyncLock(p) \/ SyncInit(p) \/ SyncCopyBegin(p) \/ SyncCopyEnd(p)
            \/ SyncChk(p) \/ SyncChkRelease(p) \/ SyncChkReacq(p) \/ SyncUnlock(p)
            \/ CloseCheck(p) \/ CloseLock(p) \/ CloseSync(p) \/ CloseRelease(p) \/ CloseUnlock(p)
            \/ EnableCheck(p) \/ EnableOpen(p)
            \/ SnapLock(p) \/ SnapPos(p) \/ SnapDone(p)
 Step(p) == /\ Step0(p) /\ hz' = hz \cup (IF pc[p] = "s_lock" /\ ~opened THEN {"Z1"} ELSE {})
            /\ (pc[p] \in {"s_init", "s_chk_reacq", "s_unlock"} \/ UNCHANGED rtxBy)
+           /\ (p = "compact" \/ UNCHANGED inComp)
+           /\ (pc[p] \in {"s_init", "e_open"} \/ UNCHANGED raced)
 Next == (\E p \in Procs : Step(p)) \/ (done = Procs /\ UNCHANGED vars)
 Spec == Init /\ [][Next]_vars
 
@@ -123,4 +141,6 @@ NoDeadlock == ~AllDone => ENABLED (\E p \in Procs : Step(p))
 NoLeakAfterCloseK == NoLeakAfterClose \/ hz # {}
 \* with no call in flight an open, initialised DB holds its read transaction (what keeps other connections from restarting the WAL)
 ReadLockWhileOpen == (AllDone /\ opened /\ inited) => rtx
+\* the data-race clause at design level (decided on the real code by the Go race detector): no shared field is written while read
+NoDataRace == ~raced
 =============================================================================
